@@ -37,7 +37,55 @@ def corpus(tier):
             items.append(("dag", dname, top))
     for ex in ["ro", "rdac", "encoder", "diff_ota", "idac", "bundles"]:
         items.append(("example", ex, None))
+    # generated modules whose names are made from parameter values: calls of a dict-parameter external module, a set of
+    # strings, and a value the naming encoder cannot serialise (refused - in every process alike)
+    for what in ("dictcalls", "frozenset", "function"):
+        items.append(("gen", what, None))
     return items
+
+
+def produce_gen(what, earlier=0):
+    """A generator-built chain whose module names depend on the parameter values given.  `earlier` = amount of unrelated
+    work done first: a sizing search whose candidate devices are created, hashed (de-duplicated in a set) and dropped."""
+    import hdl21 as h
+    from typing import FrozenSet, Any
+
+    h.generator.cache.reset()
+    nfet = h.ExternalModule(name="nfet", domain="pdk", port_list=[h.Port(name="d"), h.Port(name="g"), h.Port(name="s")], paramtype=dict)
+    cands = [nfet(w=100 + k, l=7 + k % 5, nf=1 + k % 3) for k in range(earlier)]
+    best = min(set(cands), key=lambda c: c.params["w"], default=None)
+    del cands, best
+
+    @h.paramclass
+    class SP:
+        dev = h.Param(dtype=h.Instantiable, desc="device", default=h.R(r=1))
+        tags = h.Param(dtype=FrozenSet[str], desc="tags", default=frozenset())
+        fn = h.Param(dtype=Any, desc="anything", default=None)
+
+    @h.generator
+    def Stage(p: SP) -> h.Module:
+        m = h.Module()
+        m.inp, m.out = h.Input(), h.Output()
+        if p.dev.name.startswith("nfet") if hasattr(p.dev, "name") else False:
+            m.i = p.dev(d=m.out, g=m.inp, s=m.inp)
+        else:
+            m.i = h.R(r=2)(p=m.inp, n=m.out)
+        return m
+
+    top = h.Module(name="Chain")
+    top.inp, top.out = h.Input(), h.Output()
+    prev = top.inp
+    for k in range(5):
+        nxt = top.out if k == 4 else top.add(h.Signal(name=f"n{k}"))
+        if what == "dictcalls":
+            st = Stage(dev=nfet(w=1 + k // 2, l=1, nf=2))
+        elif what == "frozenset":
+            st = Stage(tags=frozenset(["alpha", "beta", "gamma", f"k{k // 2}"]))
+        else:
+            st = Stage(fn=(lambda x: x))
+        top.add(st(inp=prev, out=nxt), name=f"s{k}")
+        prev = nxt
+    return top
 
 
 def produce(item):
@@ -61,15 +109,21 @@ def produce(item):
         except Exception as e:
             outs = ["raised " + short_exc(e)]
         return outs
-    if kind == "fam":
-        fam, design = importlib.import_module(f"hv.families.{a}").design(b)
+    if kind == "gen":
+        try:
+            pkg = h.to_proto(produce_gen(a))
+        except Exception as e:
+            return ["raised " + type(e).__name__]
     else:
-        design = dags.with_top(dags.DAGS[a](), b)
-    try:
-        built = build(design)
-        pkg = h.to_proto(built.top)
-    except Exception as e:
-        return ["raised " + type(e).__name__]
+        if kind == "fam":
+            fam, design = importlib.import_module(f"hv.families.{a}").design(b)
+        else:
+            design = dags.with_top(dags.DAGS[a](), b)
+        try:
+            built = build(design)
+            pkg = h.to_proto(built.top)
+        except Exception as e:
+            return ["raised " + type(e).__name__]
     outs.append(pkg.SerializeToString(deterministic=True).hex())
     for fmt in ("spice", "spectre", "verilog"):
         s = io.StringIO()
@@ -78,6 +132,20 @@ def produce(item):
             outs.append(s.getvalue())
         except Exception as e:
             outs.append("raised " + type(e).__name__)
+    return outs
+
+
+def _alloc_histories(what):
+    """The same generated-name design after different amounts of unrelated earlier work in one process: equal outputs."""
+    import hdl21 as h
+
+    outs = {}
+    for earlier in (0, 30, 200, 0, 800, 30, 100, 400, 1600, 7, 0, 250):
+        try:
+            pkg = h.to_proto(produce_gen(what, earlier))
+            outs.setdefault(hashlib.sha1(pkg.SerializeToString(deterministic=True)).hexdigest(), []).append(earlier)
+        except Exception as e:
+            outs.setdefault("raised " + type(e).__name__, []).append(earlier)
     return outs
 
 
@@ -147,6 +215,11 @@ for k in range(noise %% 7):
     m.s = h.Signal(width=k + 1)
     m.r = h.R(r=k)(p=m.s[0], n=m.s[0])
     h.elaborate(m)
+# unrelated earlier work of another kind: a sizing search whose candidate devices are hashed, compared and dropped again
+_dev = h.ExternalModule(name="nfet", domain="pdk", port_list=[h.Port(name="d"), h.Port(name="g"), h.Port(name="s")], paramtype=dict)
+_cands = [_dev(w=100 + k, l=7 + k %% 5, nf=1 + k %% 3) for k in range((noise %% 5) * 40)]
+_best = min(set(_cands), key=lambda c: c.params["w"], default=None)
+del _cands, _best
 from hv.checks import c12
 items = c12.corpus(%r)
 out = {}
@@ -188,9 +261,16 @@ def run(ctx):
     ctx.extra["import_seam"] = dict(setseam.STATS, active=(_hs.__dict__.get("set") is permset.PermSet and setseam.STATS["modules"] > 0))
     if not ctx.extra["import_seam"]["active"]:
         ctx.violation(dict(kind="harness", corpus="import_seam"), dict(), "the import-time set seam is not active: set displays and comprehensions would not be explored")
+    # ---- unrelated earlier work in the same process (allocation histories) ----
+    for what, outs in zip(("dictcalls", "frozenset", "function"), ctx.pmap(_alloc_histories, ["dictcalls", "frozenset", "function"], chunk=1)):
+        ctx.count(states=12, transitions=12, traces_validated_against_impl=12)
+        ctx.fam("allocation_histories", runs=12)
+        if len(outs) != 1:
+            ctx.violation(dict(kind="allocation_dependent", corpus=what), dict(alloc=what, outputs=outs), f"the package of one design program differs with the amount of unrelated earlier work: {outs}")
     # ---- seed conformance leg ----
     rnd = random.Random(ctx.seed)
     idxs = sorted(rnd.sample(range(len(items)), min(len(items), 40 if ctx.quick else 120)))
+    idxs = sorted(set(idxs) | {i for i, it in enumerate(items) if it[0] == "gen"})  # the generated-name designs always take part
     idxs = [i for i in idxs if i in digests]
     seeds = ["0", "1", "2", "31337", "99", str(1000 + ctx.seed), "424242", "7"][: 5 if ctx.quick else 8]
     procs = []
@@ -227,6 +307,10 @@ def run(ctx):
 
 def replay(body):
     c = body["case"]
+    if "alloc" in c:
+        outs = _alloc_histories(c["alloc"])
+        print("replay:", outs)
+        return 1 if len(outs) != 1 else 0
     it = c["item"]
     item = (it[0], it[1], tuple(it[2]) if isinstance(it[2], list) else it[2])
     if it[0] == "fam":
